@@ -22,6 +22,7 @@ from ..oblig import PROVED, REFUTED, UNKNOWN, UNSUPPORTED, Obligation
 from ..symex import Exec
 from ..values import B, IteV, K, Obj, S, Sym
 from .base import canon, classes_using, parallel
+from .render import flat_calls, recv_key
 from .slots import method_slots, render_slots
 
 PROP = "C17"
@@ -182,15 +183,75 @@ def check_nodes(item):
     norm = lambda s: s.replace("[*]", "").split(".")[1] if s.count(".") >= 1 else s
     rset = {norm(x) for x in rs}
     nset = {norm(x) for x in ns}
+    # path-sensitive: on every path of nodes_() a present slot is traversed
+    skipped = {}
+    ex = _run.ex
+    from .c16 import slot_tags
+    tags_of = slot_tags(ci)
+    for o in _run.outcomes:
+        if o.status == "raise":
+            continue
+        ex.st = o.state
+        cov = {}
+        for ef, g, in_loop in flat_calls(o.state.effects):
+            if ef.method != "nodes_":
+                continue
+            rk = recv_key(ex, ef, o.state)
+            if rk.startswith("self."):
+                cov.setdefault(norm(rk), []).append(z3.BoolVal(True) if (g is None or in_loop) else g)
+        for slot in rset & nset:
+            spec = ex.slot_spec(ci, slot) or ""
+            present = []
+            if not spec.startswith(("list", "set", "tuple")):
+                # the slot matters on the kinds of value that get_sql renders as a child
+                rendered = frozenset(t for t in tags_of.get(slot, ()) if t != "NoneType")
+                if rendered:
+                    present = [ex.smt.tag_in(f"self.{slot}", rendered)]
+                elif "None" in spec:
+                    present = [z3.Not(ex.smt.tag_in(f"self.{slot}", frozenset({"NoneType"})))]
+            pcc = list(o.state.pc) + present
+            c = z3.Or(cov[slot]) if slot in cov else z3.BoolVal(False)
+            if ex.smt.feasible(pcc) and not ex.smt.implied(pcc, c):
+                skipped[slot] = f"on the path {[str(x)[:120] for x in o.state.pc][-3:]} the slot is not traversed"
     for slot in sorted(rset):
-        ok = slot in nset
+        ok = slot in nset and slot not in skipped
         obs.append(Obligation(PROP, f"{name}|collect/nodes|{slot}", "collect/nodes", f"{name}.nodes_",
                               PROVED if ok else REFUTED,
-                              detail=f"{ci.name}.nodes_() traverses the rendered slot {slot}",
-                              reason="" if ok else f"{slot} is rendered by get_sql but not traversed by nodes_(): "
-                                                   f"fields_()/tables_/find_() miss what it contains",
+                              detail=f"{ci.name}.nodes_() traverses the rendered slot {slot} on every path",
+                              reason="" if ok else skipped.get(slot) or
+                              f"{slot} is rendered by get_sql but not traversed by nodes_(): "
+                              f"fields_()/tables_/find_() miss what it contains",
                               witness={"family": "call", "oracle": "nodes_cover", "args": [name, slot]}))
     return obs
+
+
+def _tables_via_fields(r, o, parts):
+    """{f.table for f in self.fields_() if isinstance(f.table, Table)}: every table reference hangs off a field, and
+    fields_() keeps one field per (table, name) when collect/dedup holds"""
+    import ast as _ast
+    from ..values import MapPart, PreSeq
+    calls = [e.method for e in o.state.effects if e.kind == "call"]
+    if calls != ["fields_"] or not parts or len(parts) != 1 or not isinstance(parts[0], MapPart):
+        return False
+    mp = parts[0]
+    if not (len(mp.seq) == 1 and isinstance(mp.seq[0], PreSeq) and mp.seq[0].path == "self.fields_()"):
+        return False
+    alts = [a for a in mp.alts if a[1]]
+    if len(alts) != 1 or len(alts[0][1]) != 1:
+        return False
+    g, (item,) = alts[0]
+    if not (repr(item).endswith(".table") and "Table" in str(g)):
+        return False
+    # table nodes are yielded only by nodes_ of Field classes
+    field = r.cls("terms.Field")
+    for ci in r.classes.values():
+        fn = ci.methods.get("nodes_")
+        if fn is None or not ci.qual.startswith("pypika_tortoise.terms"):
+            continue
+        mentions = any(isinstance(n, _ast.Attribute) and "table" in n.attr for n in _ast.walk(fn.node))
+        if mentions and not any(k is field for k in ci.mro):
+            return False
+    return True
 
 
 def check_collect(_item):
@@ -202,7 +263,7 @@ def check_collect(_item):
     obs = []
     for name, want in (("tables_", "Table"), ("fields_", "Field")):
         fi = ci.methods[name]
-        run = run_function(fi, ci, contract_self={"find_", "nodes_", "get_sql"})
+        run = run_function(fi, ci, contract_self={"find_", "nodes_", "get_sql", "fields_"})
         ok, why = not run.error, run.error or ""
         for o in run.outcomes:
             if o.status != "return":
@@ -217,6 +278,9 @@ def check_collect(_item):
                 getattr(finds[0].args[0].target, "name", "") == want and parts is not None and len(parts) == 1 and \
                 isinstance(parts[0], PreSeq) and parts[0].path == "self.find_()" and \
                 o.state.heap[v.oid].kind == "set"
+            if not good and name == "tables_" and _tables_via_fields(r, o, parts):
+                good = True     # equivalent form, given collect/dedup (one field per (table, name)) and that table
+                #                 nodes only hang off Field nodes (checked syntactically)
             if not good:
                 ok, why = False, (f"{name} is not set(self.find_({want})): calls {[e.method for e in calls]}, "
                                   f"result {parts!r}")
